@@ -110,6 +110,7 @@ type GenesisOptions struct {
 	RtMinPool          uint16   // MinPoolSize scheduling constraint (default = group size)
 	DebondingInterval  uint64   // staking debonding interval in epochs (default 1)
 	RtFunded           bool     // account 1 holds a 700-unit delegation to the runtime's own account (needed for runtime governance)
+	RtRoundTimeout     int64    // executor round timeout in blocks (default 5)
 	RtTwoVersions      bool     // the runtime has a second deployment (version 1.0.0) valid from epoch 3; node 1 is registered for the old version only
 	Vault              bool     // a vault (creator account 0, id 1) with balance 100 exists at genesis: admin {a0,a1} threshold 1, suspend {a1}, withdraw policy 60 per 10 blocks for account 1
 
@@ -171,7 +172,7 @@ func (k *Keys) RuntimeDescriptor(ent int, o GenesisOptions) *registry.Runtime {
 			GroupSize:         gs,
 			GroupBackupSize:   o.RtBackupSize,
 			AllowedStragglers: 0,
-			RoundTimeout:      5,
+			RoundTimeout:      rtRoundTimeout(o),
 			MaxMessages:       8,
 			MinLiveRoundsForEvaluation: 1,
 			MinLiveRoundsPercent:       50,
@@ -473,4 +474,11 @@ func Genesis(k *Keys, o GenesisOptions) (*genesis.Document, error) {
 		}
 	}
 	return doc, nil
+}
+
+func rtRoundTimeout(o GenesisOptions) int64 {
+	if o.RtRoundTimeout > 0 {
+		return o.RtRoundTimeout
+	}
+	return 5
 }
